@@ -131,6 +131,29 @@ func solveFunc(key string, vs *VCSet, opts SolveOpts) float64 {
 			want = "sat"
 		}
 		body := smtHeader + vs.queryText([]*Obligation{ob}) + "(check-sat)\n"
+		if ob.Cover {
+			// reachability only has to be "not refuted quickly"
+			to := opts.TimeoutMs
+			if to > 2000 {
+				to = 2000
+			}
+			out, secs, err := runSolver(solvers[0], body, to)
+			add(secs)
+			st := firstWord(out)
+			if err != nil {
+				st = "timeout"
+			}
+			ob.Solver, ob.Secs = solvers[0].name, secs
+			if st == "unsat" || strings.HasPrefix(st, "error") {
+				ob.Status = st
+			} else {
+				ob.Status = "sat"
+				if st != "sat" {
+					ob.Solver += "(" + st + ")"
+				}
+			}
+			return
+		}
 		if !ob.Cover {
 			r := race(body, opts.TimeoutMs, add)
 			ob.Status, ob.Solver, ob.Secs = r.status, r.solver, r.secs
